@@ -10,6 +10,9 @@
                        any token may end in @<k>: setTimeout(100k + 2·id + 2 ms)      (id = preorder index)
   do <call>…         control calls made back to back: start pause resume stop reset emit:<id>:s|f|b
   defer <call>…      the same calls posted with runNext
+  cb final|fin|blk <call>…   attach a one-shot script to the root's final / finish / block callback: the next
+                     invocation of that callback makes these calls (start pause resume stop reset) on the root,
+                     synchronously, from inside the callback; each result is reported as `P e ret <b>`
   adv <k>            clock += 100k ms        pass   nothing
   cfg <abcd>         (debug) select the unrepaired code: a=fixPar b=fixReplay c=fixFin d=fixBlk, each 0/1
 
@@ -22,6 +25,7 @@ import TboxModel.C17.Model
 import TboxModel.C17.Spec
 import TboxModel.C17.Inv
 import TboxModel.C17.Exec
+import TboxModel.C17.Reent
 open Tbox.Util Tbox.C17
 
 def mode3? : String → Option Mode3
@@ -196,6 +200,14 @@ def idleViolations (t : T) : List Nat :=
         || !d.finished.isEmpty || !d.heldPar.isEmpty
         || (nodesOfL cs).any (fun x => x.1.st != .idle || !x.1.tasks.isEmpty)) then some d.id else none
 
+/-- a Running composite must be waiting for something: a descendant under way, a queued notification /
+replay in its subtree, or an armed timer in its subtree; otherwise it stays Running for ever -/
+def stuckViolations (t : T) : List Nat :=
+  (nodesOf t).filterMap fun (d, cs) =>
+    if d.st == .running && !d.isLeaf &&
+       !((nodesOfL cs).any (fun x => x.1.underway || !x.1.tasks.isEmpty || x.1.tmoAt.isSome || x.1.sleepAt.isSome)
+         || !d.tasks.isEmpty || d.tmoAt.isSome) then some d.id else none
+
 mutual
 partial def hasPar : T → Bool
   | .node d cs => d.isPar || hasParL cs
@@ -246,6 +258,7 @@ structure DS where
   cfg : Cfg := {}
   plain : Bool := true          -- only `do start` once, adv, pass so far: the evaluator applies
   started : Bool := false
+  scripted : Bool := false      -- a callback script was attached in this case: the re-entrant layer runs
   rootFins : Nat := 0           -- finish callbacks of the root since its last reset
   finals : List Nat := []       -- nodes whose final callback ran since their last reset
   nops : Nat := 0
@@ -323,21 +336,35 @@ def stepLine (ds : DS) (line : String) : DS × List String :=
     match ds.tree with
     | none => (ds, ["bad-op"])
     | some (t, n) =>
-      let op? : Option Op :=
+      let ctl (w : String) : Option Call :=
+        match w with
+        | "start" => some .start | "pause" => some .pause | "resume" => some .resume | "stop" => some .stop | "reset" => some .reset
+        | _ => none
+      let opr? : Option OpR :=
         match opw, args with
-        | "do", _ :: _ => (args.mapM (parseCall n)).map .calls
-        | "defer", _ :: _ => (args.mapM (parseCall n)).map .defer
-        | "adv", [k] => match k.toNat? with | some k => if k ≤ 100 then some (.adv (100 * k)) else none | none => none
-        | "pass", [] => some .pass
+        | "do", _ :: _ => (args.mapM (parseCall n)).map (fun c => .op (.calls c))
+        | "defer", _ :: _ => (args.mapM (parseCall n)).map (fun c => .op (.defer c))
+        | "adv", [k] => match k.toNat? with | some k => if k ≤ 100 then some (.op (.adv (100 * k))) else none | none => none
+        | "pass", [] => some (.op .pass)
+        | "cb", which :: (c1 :: cs) =>
+            if (c1 :: cs).length > 6 then none else
+            match which, (c1 :: cs).mapM ctl with
+            | "final", some l => some (.cb .final l)
+            | "fin", some l => some (.cb .fin l)
+            | "blk", some l => some (.cb .blk l)
+            | _, _ => none
         | _, _ => none
-      match op? with
+      match opr? with
       | none => (ds, ["bad-op"])
-      | some op =>
+      | some opr =>
+        let ds := { ds with scripted := ds.scripted || (match opr with | .cb _ _ => true | _ => false) }
+        let op : Op := match opr with | .op o => o | .cb _ _ => .pass
         let g0 := { ds.g with log := [] }
-        let (t', g', rs) := step t g0 op
+        -- without callback scripts the model of Model.lean runs (the one the theorems of layers 1–3 are about)
+        let (t', g', rs) := if ds.scripted then stepR t g0 opr else step t g0 op
         let evs := g'.log.reverse
         -- resets clear the once-per-run monitors of the nodes that are idle again
-        let isPlainOp := match op with
+        let isPlainOp := !ds.scripted && match op with
           | .calls [.start] => !ds.started
           | .adv _ | .pass => true
           | _ => false
@@ -346,7 +373,9 @@ def stepLine (ds : DS) (line : String) : DS × List String :=
         let (ds, mon) := monitorEvents ds evs t'
         let q := quiescentViolations t'
         let iv := idleViolations t'
+        let sv := stuckViolations t'
         let mon := mon ++ (if q.isEmpty then [] else [s!"P MONITOR descendant-left-underway-below-ended-node {q}"])
+                       ++ (if sv.isEmpty || ds.cfg != {} then [] else [s!"P MONITOR running-composite-waits-for-nothing {sv}"])
                        ++ (if iv.isEmpty then [] else [s!"P MONITOR idle-node-not-fresh {iv}"])
                        ++ (if WF t' || ds.cfg != {} then [] else ["P MONITOR tree-invariant-WF-broken"])
         -- the documented meaning, for runs without control calls
@@ -363,7 +392,8 @@ def stepLine (ds : DS) (line : String) : DS × List String :=
             | .calls cs => cs.map fun c => match c with
                 | .start => "c-start" | .pause => "c-pause" | .resume => "c-resume" | .stop => "c-stop" | .reset => "c-reset"
                 | .emitFin _ _ => "c-emitfin" | .emitBlk _ => "c-emitblk"
-            | .defer _ => ["defer"] | .adv _ => ["adv"] | .pass => ["pass"])
+            | .defer _ => ["defer"] | .adv _ => ["adv"] | .pass => (match opr with | .cb .final _ => ["cb-final"] | .cb .fin _ => ["cb-fin"] | .cb .blk _ => ["cb-blk"] | _ => ["pass"]))
+          ++ (if ds.scripted && evs.any (fun e => match e with | .ret _ => true | _ => false) && !(match op with | .defer _ => true | _ => false) then ["script-ran"] else [])
           ++ (if (nodesOf t').any (fun x => x.1.held.isSome) then ["held-back"] else [])
           ++ (if (nodesOf t').any (fun x => !x.1.heldPar.isEmpty) then ["held-back-par"] else [])
           ++ (if (nodesOf t').any (fun x => x.1.tasks.any (fun k => match k.2 with | .replay _ | .replayPar => true | _ => false)) then ["replay-queued"] else [])
